@@ -53,6 +53,15 @@ func (cache *Cache) evict() {
 	delete(cache.entries, key)
 }
 
+// writeSignature writes the parts of the signature that determine a verification verdict
+// to the cache key: the claimed participants, which are not covered by ToBytes, and the signature bytes.
+func writeSignature(key *strings.Builder, signature hotstuff.QuorumSignature) {
+	signature.Participants().ForEach(func(id hotstuff.ID) {
+		_, _ = key.Write(id.ToBytes())
+	})
+	_, _ = key.Write(signature.ToBytes())
+}
+
 // Sign signs a message and adds it to the cache for use during verification.
 func (cache *Cache) Sign(message []byte) (sig hotstuff.QuorumSignature, err error) {
 	sig, err = cache.impl.Sign(message)
@@ -62,7 +71,7 @@ func (cache *Cache) Sign(message []byte) (sig hotstuff.QuorumSignature, err erro
 	var key strings.Builder
 	hash := sha256.Sum256(message)
 	_, _ = key.Write(hash[:])
-	_, _ = key.Write(sig.ToBytes())
+	writeSignature(&key, sig)
 	cache.insert(key.String())
 	return sig, nil
 }
@@ -72,7 +81,7 @@ func (cache *Cache) Verify(signature hotstuff.QuorumSignature, message []byte) e
 	var key strings.Builder
 	hash := sha256.Sum256(message)
 	_, _ = key.Write(hash[:])
-	_, _ = key.Write(signature.ToBytes())
+	writeSignature(&key, signature)
 
 	if cache.check(key.String()) {
 		return nil
@@ -102,7 +111,7 @@ func (cache *Cache) BatchVerify(signature hotstuff.QuorumSignature, batch map[ho
 
 	var key strings.Builder
 	_, _ = key.Write(hasher.Sum(nil))
-	_, _ = key.Write(signature.ToBytes())
+	writeSignature(&key, signature)
 
 	if cache.check(key.String()) {
 		return nil
